@@ -185,6 +185,12 @@ package generator
 //@   ensures@C13 builder.GenInv(g)
 
 // C12/C04: generated sub methods get the CONVERTER's settings, not those of the calling method
+// C06: "is there a custom function or declared method for this pair" does not depend on the contexts the current method
+// happens to have -- a match whose context is missing must surface as an error (Get), never as "no such function"
+//@ func generator.hasMethod(g; ctx, source, target)
+//@   props C06
+//@   requires@C13 g != nil && g.extend != nil && g.lookup != nil && source != nil && target != nil
+//@   ensures result == (has(g.extend.Exact, xtype.Signature{Source: source.String(), Target: target.String()}) || has(g.lookup.Exact, xtype.Signature{Source: source.String(), Target: target.String()}))
 //@ func generator.createSubMethod(g; ctx, sourceID, source, target, errPAth)
 //@   props C06 C03 C12 C04 C01
 //@   propagates
